@@ -185,6 +185,27 @@ def run(chk):
             dis.append(dict(input=dict(FeH=fehs, shares_dict=use), impl=dict(effective=eff, dict_after=d), model=[int(x) for x in res]))
     chk.correspondence("run_history (copy semantics) vs sequences of IFMR(FeH, BH_kwargs=shared dict): table actually opened + dictionary afterwards",
                        len(meta), dis)
+    # ---- routines documented as working IN PLACE: they modify the arrays they are given and return those very arrays -------------
+    import implutil as U
+    from ssptools import kicks as kk_
+    emf_ = U.mods()[0]
+    car_ = U.base_emf()
+    car_bh = copy.copy(car_)
+    car_bh.__class__ = emf_.EvolvedMFWithBH
+    for name_, call_ in (
+            ("natal_kicks(sigmoid)", lambda M_, N_: kk_.natal_kicks(M_, N_, method="sigmoid", slope=0.5, scale=15.0)[:2]),
+            ("natal_kicks(maxwellian)", lambda M_, N_: kk_.natal_kicks(M_, N_, method="maxwellian", vesc=50.0, FeH=-1.0)[:2]),
+            ("EvolvedMF._dyn_eject_BH", lambda M_, N_: car_._dyn_eject_BH(M_, N_, M_eject=0.4 * float(M_.sum()))),
+            ("EvolvedMFWithBH._dyn_eject_BH", lambda M_, N_: car_bh._dyn_eject_BH(M_, N_, 10.0 * float(M_.sum()), 0.03))):
+        M_ = np.array([12.0, 40.0, 90.0, 150.0, 60.0])
+        N_ = np.array([2.0, 4.0, 6.0, 8.0, 2.5])
+        before_ = (M_.copy(), N_.copy())
+        rM_, rN_ = call_(M_, N_)
+        chk.count("in-place routines exercised")
+        if not (rM_ is M_ and rN_ is N_):
+            chk.fail("routines documented as in-place return the very arrays they were given", dict(routine=name_), "new arrays returned")
+        elif np.array_equal(M_, before_[0]) and np.array_equal(N_, before_[1]):
+            chk.fail("routines documented as in-place modify the arrays they were given", dict(routine=name_), dict(M_after=[float(x) for x in M_]))
     chk.trusted += ["harness/props/C16.py + fresh_worker.py (fresh-interpreter references, deep snapshots)",
                     "the store model covers option dictionaries; lists / arrays / IMF objects are covered by the snapshot oracle only"]
 
